@@ -43,6 +43,11 @@ type verifExpr struct {
 func vx(path ...any) *verifExpr { return &verifExpr{path: path, id: fmt.Sprint(path...)} }
 
 func (e *verifExpr) Type(s schema.Scope, f map[string]schema.Function, c map[string][]byte) (schema.Type, error) {
+	if len(e.path) == 4 && e.path[0] == "steps" {
+		// a whole stage output ($.steps.x.stage.output) is an object (needed where an object is required,
+		// e.g. as an alternative of a one-of); everything else is of any type
+		return schema.NewObjectSchema("out_"+e.id, map[string]*schema.PropertySchema{}), nil
+	}
 	return schema.NewAnySchema(), nil
 }
 
@@ -126,6 +131,18 @@ func (s *vScope) Unserialize(data any) (any, error) {
 	if v, ok := data.(verifrt.Val); ok {
 		return verifrt.UF("U", v), nil
 	}
+	if m, ok := data.(map[string]any); ok {
+		// an input document that is an object: every field is normalised
+		r := make(map[string]any, len(m))
+		for k, x := range m {
+			if v, ok := x.(verifrt.Val); ok {
+				r[k] = verifrt.UF("U", v)
+			} else {
+				r[k] = x
+			}
+		}
+		return r, nil
+	}
 	return data, nil
 }
 
@@ -140,6 +157,17 @@ func (s *vScope) Serialize(data any) (any, error) {
 	}
 	if v, ok := data.(verifrt.Val); ok {
 		return verifrt.UF("S", v), nil
+	}
+	if m, ok := data.(map[string]any); ok {
+		r := make(map[string]any, len(m))
+		for k, x := range m {
+			if v, ok := x.(verifrt.Val); ok {
+				r[k] = verifrt.UF("S", v)
+			} else {
+				r[k] = x
+			}
+		}
+		return r, nil
 	}
 	return data, nil
 }
@@ -230,6 +258,7 @@ type vHandover struct {
 }
 
 type vStep struct {
+	closeSeen bool
 	run       *vRun
 	id        string
 	h         step.StageChangeHandler
@@ -348,12 +377,21 @@ func verifAtomicCloseReq(s *vStep) {
 
 func (s *vStep) ForceClose() error {
 	verifrt.Yield("ForceClose")
+	if s.outcome["slow-close"] == 1 && verifAtomicFirstClose(s) {
+		<-verifrt.TimerChan(6000000000) // closing this step takes 6 s (a deployment that cannot be interrupted)
+	}
 	verifAtomicCloseReq(s)
 	<-s.finished
 	s.wg.Wait()
 	return nil
 }
 func (s *vStep) Close() error { return s.ForceClose() }
+
+func verifAtomicFirstClose(s *vStep) bool {
+	first := !s.closeSeen
+	s.closeSeen = true
+	return first
+}
 
 func verifAtomicSet(s *vStep, stage string, st step.RunningStepState, waitingOn string) {
 	if stage != "" {
@@ -599,9 +637,11 @@ func verifRealPrepare(e *executor, wf *Workflow) *executableWorkflow {
 	verifInPrepare++
 	res, err := e.Prepare(wf, nil)
 	verifInPrepare--
-	verifrt.Assert(err == nil, "harness: the template is accepted by Prepare")
 	if err != nil {
 		verifrt.Event("Prepare: " + err.Error())
+	}
+	verifrt.Assert(err == nil, "harness: the template is accepted by Prepare")
+	if err != nil {
 		verifrt.Assume(false)
 	}
 	ew, ok := res.(*executableWorkflow)
